@@ -1,22 +1,21 @@
-\* MODULE MCcover1
+\* MODULE MCfault1
 SPECIFICATION Spec
 CONSTANTS
   Procs <- MCProcs
   Prog <- MCProg
-  Cap = 1
-  Maint = "nondet"
+  Cap = 2
+  Maint = "always"
   DirsExist = TRUE
   Pre <- MCPre
   WriteFallback = FALSE
   CrashBudget = 0
-  AdvBudget = 1
+  AdvBudget = 0
   Debris <- MCDebris
   PreRO <- NoPreRO
   FrontKind = "plain"
   KeyShards <- NoKeyShards
-  FaultBudget = 0
+  FaultBudget = 1
 VIEW View
-ACTION_CONSTRAINT CoverAC
-POSTCONDITION CoverPost
-INVARIANTS InvDirValid InvNoErr
+INVARIANTS InvDirValid InvHandle InvNoLeak InvFaultReported InvErrOnlyIfFaulted
+PROPERTIES StepImmutable StepReadOnlyFirst StepRemoval
 CHECK_DEADLOCK FALSE
